@@ -1,11 +1,11 @@
 /*
  * C17 (third harness) -- large-scope transfers: counts N and single driver
- * answers around 2^31, 2^32, 2^33 and SSIZE_MAX.
+ * answers around 2^31, 2^32 and 2^33.
  *
  * The driver contract (endpoints/core.c) lets a chunk-style driver answer any
  * count from 0 to what it was asked for, and the statement quantifies over
  * "any mix of partial transfers, zero-length returns and EINTR/EAGAIN" for
- * every N up to SSIZE_MAX.  A 64-bit count that passes through a narrower or
+ * every N up to SSIZE_MAX (here: up to 2^33+2^20).  A 64-bit count that passes through a narrower or
  * signed variable on its way through a retry loop changes meaning exactly at
  * these boundaries: 2^32-4 and 2^32-11 read as -EINTR / -EAGAIN in 32 bits,
  * 2^32-5 / -12 / -22 / -32 / -61 as hard error codes, 2^31 as a negative
@@ -27,8 +27,13 @@
  *       position); the octets a sink call accepts are looked up in that record
  *       and have to be the next octets of the stream.
  * The block itself is an 8 GiB anonymous mapping that is never touched (no
- * page of it is ever instantiated); counts beyond it (2^40, SSIZE_MAX) use the
- * same base address.
+ * page of it is ever instantiated).  Every length the caller claims for a block
+ * it passes (destination of a get, origin of a put, auxiliary buffer) lies
+ * inside that mapping (audit 6: the caller's block is real memory; a library
+ * that, say, wipes the delivered part of the destination when an exact read
+ * fails may touch all of what it was given).  Multi-GiB counts inside the
+ * mapping are enough for the 2^31 / 2^32 / 2^33 arithmetic; counts beyond
+ * SSIZE_MAX ("refused as invalid") are c17_endpoints.c's.
  *
  * The oracle is the one of c17_endpoints.c, on 64-bit counters (one endpoint:
  * a hard driver error is returned unchanged; plumbing: a failing call returns
@@ -684,6 +689,26 @@ probes(int nops)
         struct casep c = probe_case(op, PROBE_SIZE);
         run_case(&c, &nt);
         size_t resident = resident_pages(m, PROBE_SIZE, vec);
+        /* stage 1b: the same block through calls that fail or are disturbed
+         * (a library may tidy up the memory it was given when a transfer
+         * fails, e.g. wipe the part of the destination delivered so far):
+         * partial answer then hard error, hard error at once, partial answer
+         * then interruption, on either side.  Verdicts of these runs are not
+         * looked at (mc_fail is a no-op outside a case). */
+        static const uint8_t PS[][3] = { { T_KM1, T_EIO, T_REST }, { T_EIO, T_REST, T_REST }, { T_KM1, T_EINTR, T_EIO },
+                                         { T_KM1, T_ZERO, T_EIO } };
+        for (unsigned pi = 0; pi < sizeof PS / sizeof *PS && resident <= 8; ++pi)
+            for (int side = 0; side < (op_one(op) ? 1 : 2) && resident <= 8; ++side) {
+                c = probe_case(op, PROBE_SIZE);
+                const bool on_src = op_one(op) ? op_get(op) : side == 0;
+                memcpy(on_src ? c.s_src : c.s_snk, PS[pi], 3);
+                if (on_src)
+                    c.slen_src = 3;
+                else
+                    c.slen_snk = 3;
+                run_case(&c, &nt);
+                resident = resident_pages(m, PROBE_SIZE, vec);
+            }
         munmap(m, PROBE_SIZE);
         ARENA = arena;
         long ms = 0;
@@ -711,6 +736,21 @@ probes(int nops)
 
 /* ------------------------------------------------------------------------ */
 /* enumeration                                                              */
+
+/* Should a case have instantiated pages of the block after all, give them back
+ * (otherwise every shard ends up holding gigabytes).  Looked at only when the
+ * case used a noticeable amount of CPU time; the clock decides nothing else and
+ * is never printed. */
+static struct timespec case_t0;
+static void
+release_touched(void)
+{
+    struct timespec t1;
+    clock_gettime(CLOCK_PROCESS_CPUTIME_ID, &t1);
+    const long ms = (long)(t1.tv_sec - case_t0.tv_sec) * 1000 + (t1.tv_nsec - case_t0.tv_nsec) / 1000000;
+    if (ms >= 20)
+        madvise(ARENA, ARENA_SIZE, MADV_DONTNEED);
+}
 
 static void
 script_str(char *out, size_t n, const uint8_t *s, int len)
@@ -746,15 +786,22 @@ emit(const struct casep *c, const char *layer)
         mc_end(false, "huge-not-run");
         return;
     }
+    /* the blocks named here are gigabytes of real (if never instantiated)
+     * memory: should an implementation work on one in a way the probes did not
+     * foresee (one memset over 8 GiB), that is slow, not a hang; loops that do
+     * not end are caught by the drivers' call budgets */
+    mc_budget(mc_thorough() ? 300 : 100);
+    clock_gettime(CLOCK_PROCESS_CPUTIME_ID, &case_t0);
     bool nontrivial = false;
     const char *outcome = run_case(c, &nontrivial);
     mc_end(nontrivial || mc.cur_failed, outcome);
+    release_touched();
 }
 
 /* counts: each straddles a boundary at which some answer of VAL[] leaves a remainder */
+/* all of them <= ARENA_SIZE: the block the caller names exists in full */
 static const uint64_t NS[] = {
-    P31 + 3, P32 - EAGAIN, P32 - EINTR, P32 - 1, P32, P32 + 5, P33 - EINTR, P33 + 1,
-    1ull << 40, SSZ - 1, SSZ,
+    P31 + 3, P32 - EAGAIN, P32 - EINTR, P32 - 1, P32, P32 + 5, P33 - EINTR, P33 + 1, ARENA_SIZE,
 };
 #define NNS ((int)(sizeof NS / sizeof *NS))
 
@@ -899,7 +946,7 @@ main(int argc, char **argv)
     probes(H__N);
     one_sided(th ? 3 : 2);
     two_sided(th ? 3 : 2, th ? 3 : 2);
-    mc_finish(true, th ? "chunk drivers; answers over {rest, asked-1, 0, EINTR, EAGAIN, EIO} + 20 counts around 2^31/2^32/2^33 (low 32 bits = errno codes, -1, 0, 1; sign bit); one driver: 4 operations x 11 counts N (2^31+3 .. SSIZE_MAX) x every script of 3 answers; two drivers: 4 aux forms + 4 forms through an offered scratch region x 2 geometries x 3 counts (at-most forms: 6, up to SIZE_MAX) x every placement of <= 3 deviating answers over 3+3 call slots"
-                       : "chunk drivers; answers over {rest, asked-1, 0, EINTR, EAGAIN, EIO} + 20 counts around 2^31/2^32/2^33 (low 32 bits = errno codes, -1, 0, 1; sign bit); one driver: 4 operations x 11 counts N (2^31+3 .. SSIZE_MAX) x every script of 2 answers; two drivers: 4 aux forms + 4 forms through an offered scratch region x 2 geometries x 3 counts (at-most forms: 6, up to SIZE_MAX) x every placement of <= 2 deviating answers over 2+2 call slots");
+    mc_finish(true, th ? "chunk drivers; answers over {rest, asked-1, 0, EINTR, EAGAIN, EIO} + 20 counts around 2^31/2^32/2^33 (low 32 bits = errno codes, -1, 0, 1; sign bit); one driver: 4 operations x 9 counts N (2^31+3 .. 2^33+2^20, all inside the 8 GiB mapping) x every script of 3 answers; two drivers: 4 aux forms + 4 forms through an offered scratch region x 2 geometries x 3 counts (at-most forms: 6, up to SIZE_MAX) x every placement of <= 3 deviating answers over 3+3 call slots"
+                       : "chunk drivers; answers over {rest, asked-1, 0, EINTR, EAGAIN, EIO} + 20 counts around 2^31/2^32/2^33 (low 32 bits = errno codes, -1, 0, 1; sign bit); one driver: 4 operations x 9 counts N (2^31+3 .. 2^33+2^20, all inside the 8 GiB mapping) x every script of 2 answers; two drivers: 4 aux forms + 4 forms through an offered scratch region x 2 geometries x 3 counts (at-most forms: 6, up to SIZE_MAX) x every placement of <= 2 deviating answers over 2+2 call slots");
     return 0;
 }
